@@ -161,6 +161,13 @@ def cases(ctx):
         sel, sk = rng.choice([({'resSeq': [pick]}, ['resSeq']), ({'chainID': [ch], 'resSeq': [pick]}, ['resSeq']),
                               ({'chainID': [ch], 'resSeq': [pick]}, ['chainID', 'resSeq'])] + ([({'chainID': [ch]}, ['chainID'])] if pick != 0 else []))
         ob = rng.random() < 0.5
+        if k % 4 == 3:
+            # a bare multi-character STRING (name='CA', resName='ALA'): one value, not a sequence of characters
+            # (round-8 seed C13-r8m1: `list(v)` applied to every keyword value turns 'CA' into ['C', 'A'])
+            if rng.random() < 0.6:
+                sel, sk, ob = {'name': [rng.choice(['CA', 'CB', 'CA'])]}, ['name'], False
+            else:
+                sel, sk = {'resName': [rng.choice(sorted({r['resName'] for r in target.residues}))]}, ['resName']
         out.append(mk(target.lines(), mobile.lines(), sel, 'scalar-selection', only_backbone=ob, method=rng.choice(['svd', 'quaternion']),
                       source=rng.choice(['file', 'lines']), sel_label='scalar:' + '+'.join(sk) + (':zero' if pick == 0 and 'resSeq' in sel else '')))
         out[-1]['scalar_keys'] = sk
